@@ -82,6 +82,8 @@ TRestart  == IsEvent("restart") /\ Do(RestartM, RestartR)
 TReload   == IsEvent("reload") /\ Do(ReloadM, ReloadR)
 TReconf   == IsEvent("reconf") /\ Do(ReconfM, ReconfR)
 TAge      == IsEvent("age") /\ Do(AgeM, AgeR)
+TSpawn    == IsEvent("spawn") /\ Do(SpawnM, SpawnR)
+TCloseOld == IsEvent("closeold") /\ Do(CloseOldM, CloseOldR)
 
 \* the library panicked inside this step (reported by the check itself); the driver abandons the
 \* behaviour, the next line is a reset
@@ -94,7 +96,7 @@ TraceInit == /\ l = 1 /\ TLCSet(HW, 0) /\ TLCSet(VI, <<>>) /\ TLCSet(KF, {})
              /\ acked = [j \in CIDs |-> Nil] /\ obs = [j \in CIDs |-> NoObs] /\ verdict = {}
 
 TraceNext == \/ TPanic \/ TReset \/ TDiscover \/ TRequest \/ TDecline \/ TRelease \/ TCapture \/ TUncapture
-             \/ TTick \/ TForeign \/ TPurge \/ TRestart \/ TReload \/ TReconf \/ TAge
+             \/ TTick \/ TForeign \/ TPurge \/ TRestart \/ TReload \/ TReconf \/ TAge \/ TSpawn \/ TCloseOld
 
 TraceSpec == TraceInit /\ [][TraceNext]_tvars
 
